@@ -66,6 +66,7 @@ type SpecFn struct {
 	Src     string
 	Rec     bool
 	Uninter bool
+	Ensures []*Clause // facts instantiated at every ground application (uninterpreted spec functions)
 	Reads   []string
 	File    string
 	Line    int
@@ -144,6 +145,7 @@ func (sp *Specs) loadFile(path string) error {
 		pkg = strings.TrimSuffix(filepath.Base(path), filepath.Ext(path))
 	}
 	var cur *Contract
+	var curSpec *SpecFn
 	for _, rl := range logical {
 		fail := func(f string, a ...any) error {
 			return fmt.Errorf("%s:%d: %s", path, rl.line, fmt.Sprintf(f, a...))
@@ -165,6 +167,7 @@ func (sp *Specs) loadFile(path string) error {
 				return fail("duplicate contract for %s", name)
 			}
 			sp.Contracts[name] = cur
+			curSpec = nil
 		case "spec":
 			sf, err := parseSpecFn(rest)
 			if err != nil {
@@ -176,6 +179,7 @@ func (sp *Specs) loadFile(path string) error {
 			}
 			sp.SpecFns[sf.Name] = sf
 			cur = nil
+			curSpec = sf
 		case "lemma", "axiom", "datafact":
 			i := strings.Index(rest, ":")
 			if i < 0 {
@@ -199,6 +203,14 @@ func (sp *Specs) loadFile(path string) error {
 			sp.LemmaOrd = append(sp.LemmaOrd, lm.Name)
 			cur = nil
 		default:
+			if cur == nil && curSpec != nil && kw == "ensures" {
+				cl, err := parseClause(kw, rest, path, rl.line)
+				if err != nil {
+					return fail("%v", err)
+				}
+				curSpec.Ensures = append(curSpec.Ensures, cl)
+				continue
+			}
 			if cur == nil {
 				return fail("clause %q outside a func block", kw)
 			}
